@@ -40,6 +40,9 @@ def oracle(case, res):
     if res is None or res['parse_error'] is not None:
         return fails
     rep = {'kind': 'solve', 'case': case}
+    if res.get('hang'):
+        return [{'key': 'hang', 'what': 'SolveEquation did not return within %d s: %s' % (
+            sc.CASE_TIMEOUT, sc.block_text(case).replace('\n', ' | ')), 'replay': rep}]
     if res['outcome'] is not None:
         return fails          # C02 speaks about normal returns
     ts = res['ts_raw']
